@@ -43,12 +43,13 @@ CLAIMED = {
             'the same symbolic arguments; the parsed database must equal the expected content exactly (nothing dropped, nothing extra). '
             'Names and free texts are K-character symbolic holes, setting presence / operator / form selectors are symbolic or fanned out '
             '(quoting, keyword case, one-line vs multi-line, settings order, body order, schema.name / bare / alias addressing).',
-            'DESIGN.md 6/C01', 'Open finding c01_backslash_in_quoted_name (pyparsing converts \\t etc. inside quoted identifiers).'),
+            'DESIGN.md 6/C01 and 10.5', 'A finding of this check (pyparsing converted \\t etc. inside quoted identifiers) was repaired by a fix: commit.'),
     'C02': ('parse -> .dbml -> parse -> .dbml over the C01 scenario documents and over API-built databases (names that need quoting, '
             'reserved words as names of every element kind, schema-qualified tables and enums, aliases, composite / many-to-many / inline '
             'references, every column flag and default kind): identical content after re-parse and byte-identical second rendering.',
-            'DESIGN.md 6/C02', 'Seven open findings of the renderer are excluded by narrow regions (see known_findings.json); instances whose '
-            'whole domain lies in such a region are reported as excluded, not as held.'),
+            'DESIGN.md 6/C02 and 10.5', 'Open findings of the renderer (falsy defaults dropped, enum names with a dot, trimmed reference column names, and the '
+            'C13 regions) are excluded by narrow regions (see known_findings.json); instances whose whole domain lies in such a region are '
+            'reported as excluded, not as held. Four renderer defects found by this check were repaired by fix: commits.'),
     'C05': ('Parsed documents with three tables in two schemas (two sharing the bare name), aliases, same-named enums in two schemas, '
             'inline / short / block / composite references whose endpoints are addressed by schema.name, bare name or alias (symbolic '
             'selector per endpoint), indexes, a group, a sticky note and a project: every link is checked by object IDENTITY '
@@ -76,7 +77,7 @@ CLAIMED = {
             'block at symbolic positions, one-line and multi-line, keys from an enumerated set, values symbolic: stored exactly and in '
             'order with the option on, database flag set, round trip through .dbml, flag flips switch rendering, syntax error with the option '
             'off, and identical parse and renderings under both option values for documents without properties.',
-            'DESIGN.md 6/C15', 'Two open findings (key with a keyword prefix; property after a newline in a settings list).'),
+            'DESIGN.md 6/C15 and 10.5', 'Open finding: key with a keyword prefix. The property-after-newline defect found by this check was repaired.'),
     'C11': ('Sequences parse(A); parse(B); parse(A) where B is valid, syntactically faulty (symbolic garbage character), fails in the build '
             'stage, or is parsed with other options: equal content for A both times; two results of one document share no object and '
             'edits to one (project items, properties, notes, tables, names, enum items, index subjects) change neither the other nor a '
